@@ -917,6 +917,42 @@ class Builder:
                 nd2["src"] = new
                 nxt = self.add(nd2)
                 new = nxt if nxt is not None else new
+        elif (
+            new is not None
+            and nd["op"] == "extend"
+            and not nd.get("order_by")
+            and cfg.get("extend_then_partition_window_prob")
+            and g.boolean(cfg["extend_then_partition_window_prob"])
+        ):
+            # ... or by a window PARTITIONED by a column it assigned, whose expressions read nothing else it assigned
+            assigned = [k for k, _ in nd["ops"]]
+            sch = schemas[new]
+            keyable = [k for k in assigned if sch.cols[k]["type"] in ("int", "str", "bool") and not sch.cols[k]["zn"]]
+            args = [c for c in sch.of_type(*NUM) if c not in assigned and not sch.cols[c]["null"]]
+            free = [n for n in g.pool("float") + g.pool("int") if n not in sch.cols]
+            if keyable and args and free:
+                pk = g.pick(keyable)
+                fn = g.pick(["sum", "max", "min", "mean"])
+                arg = g.pick(args)
+                rt = S.agg_result(S.AGG_WINDOW, fn, ["col", arg], sch, windowed=True)["type"]
+                names = [n for n in free if S.NAME_TYPE[n] == rt]
+                if names:
+                    nxt = self.add({"op": "extend", "src": new, "ops": [[g.pick(names), ["call", fn, [["col", arg]]]]], "partition_by": [pk]})
+                    new = nxt if nxt is not None else new
+        if (
+            new is not None
+            and nd["op"] in ("extend", "select_rows")
+            and cfg.get("concat_with_source_prob")
+            and set(schemas[new].names()) == set(schemas[nd["src"]].names())
+            and g.boolean(cfg["concat_with_source_prob"])
+        ):
+            # a step that keeps the column SET (an extend that only overwrites, a filter) concatenated with its own source:
+            # the two UNION ALL members list their columns in different internal orders
+            pair = (new, nd["src"]) if g.boolean() else (nd["src"], new)
+            nd3 = step_concat(g, schemas, *pair)
+            if nd3 is not None:
+                nxt = self.add(nd3)
+                new = nxt if nxt is not None else new
         return new
 
     def twin(self, node_id: int):
